@@ -227,7 +227,8 @@ fn p01v_body<const NT: usize, const FORCED: usize>() {
     kani::cover!(NT < 2 || (got == 1 && toks[1] != EOS_T));
     kani::cover!(NT < 2 || (got == 2 && toks[1] == EOS_T));
     kani::cover!(FORCED == 0 || (got >= 1 && pos == FORCED));
-    kani::cover!(NT < 2 || (got == 2 && st.numeric_ok[toks[1] as usize] && !st.numeric_ok[toks[0] as usize]));
+    let vc_2 = NT < 2 || (got == 2 && st.numeric_ok[toks[1] as usize] && !st.numeric_ok[toks[0] as usize]);
+    kani::cover!(vc_2);
     std::mem::forget(st);
 }
 
